@@ -40,6 +40,8 @@ LAYOUTS = {
     "entry-last": [("c", "g", 1), ("c", "f", 0), ("c", "f", 1)],
     # f ends in a block that loops back to itself and is followed by data
     "loop-tail": [("c", "f", 1), ("c", "f", "loop"), ("d", None, 0), ("c", "g", 1)],
+    # the entry of f is jumped to from another function and is followed by data, more code of f comes behind the data
+    "entered-before-data": [("c", "f", 1), ("d", None, 0), ("c", "f", 0), ("c", "g", "jmpA")],
 }
 
 
@@ -50,6 +52,8 @@ def make_spec(name, functions=True):
         nm = scen.NAMES[j]
         if k == "c" and e == "loop":
             b = scen.code_block(nm, [10 * (j + 1)], ["jmp", nm], f=f, e=False)
+        elif k == "c" and e == "jmpA":
+            b = scen.code_block(nm, [10 * (j + 1)], ["jmp", "A"], f=f, e=True)
         elif k == "c":
             last = j == len(lay) - 1 or lay[j + 1][0] == "d" or lay[j + 1][1] != f
             if name == "entry-last" and j == 1:
